@@ -225,8 +225,16 @@ TEnd ==
                 THEN flags \cup {"stream reported complete but bytes are missing"} ELSE flags
   /\ UNCHANGED <<vars, pend, getting, wr, rd>>
 
+(* srv.flood: n carriers outside the scenario's bookkeeping attached, each
+   with a ClientID of its own (the rig counted them at their srv.attached
+   hook): n further Set calls on the address memory. *)
+TFlood ==
+  /\ Is("srv.flood") /\ Step
+  /\ sets' = sets \o [j \in 1..e.n |-> [id |-> "flood", addr |-> "203.0.113.77:1", k |-> 0]]
+  /\ UNCHANGED <<carrierVars, recvQ, outQ, kcpVars, flagVars, expired>> /\ Keep
+
 TNext ==
-  \/ TEnd \/ TReset \/ TSkip \/ TSesStart \/ TCarOpen \/ TClientGone \/ TSrvClosed \/ TNotClosed
+  \/ TFlood \/ TEnd \/ TReset \/ TSkip \/ TSesStart \/ TCarOpen \/ TClientGone \/ TSrvClosed \/ TNotClosed
   \/ TAttach \/ TAttached \/ TSrvIn \/ TSrvOut \/ TDetach
   \/ TSession \/ TAcceptKcp \/ TAccept \/ TRead \/ TAppErr
   \/ \E k \in Carriers : TSetSilent(k)
